@@ -21,7 +21,18 @@ def _mods():
 
 def draw(rng, i=1):
     c, kind = gens.cell(rng)
-    eps = [0.0] * 6 if i % 8 == 0 else [rng.uniform(-0.1, 0.1) for _ in range(6)]
+    if i % 8 == 0:
+        eps = [0.0] * 6
+    elif i % 8 in (1, 5):
+        # small strains, log-uniform magnitude 1e-9 .. 1e-3 (thermal expansion, elastic strain): a shortcut that treats "nearly
+        # unstrained" as unstrained (allclose with its default rtol = 1e-5) is invisible to a uniform draw from [-0.1, 0.1]
+        sc = 10.0 ** rng.uniform(-9, -3)
+        eps = [rng.uniform(-1, 1) * sc for _ in range(6)]
+    elif i % 8 == 3:
+        # only some components non-zero (uniaxial / pure shear)
+        eps = [rng.uniform(-0.1, 0.1) if rng.random() < 0.4 else 0.0 for _ in range(6)]
+    else:
+        eps = [rng.uniform(-0.1, 0.1) for _ in range(6)]
     U, uk = gens.rotation(rng, 'uniform' if i % 3 else None)
     return c, kind, eps, U
 
